@@ -2,6 +2,11 @@ pub mod c05;
 pub mod c06;
 pub mod c08;
 pub mod c10;
+pub mod c13;
+pub mod c14;
+pub mod c15;
+pub mod c17;
+pub mod c18;
 pub mod c20;
 pub mod common;
 pub mod group;
@@ -28,6 +33,11 @@ pub fn get(id: &str) -> Option<Box<dyn Monitor>> {
         "C08" => Some(Box::new(c08::C08)),
         "C09" => Some(Box::new(meta::MetaMonitor { prop: "C09" })),
         "C16" => Some(Box::new(meta::MetaMonitor { prop: "C16" })),
+        "C13" => Some(Box::new(c13::C13)),
+        "C14" => Some(Box::new(c14::C14)),
+        "C15" => Some(Box::new(c15::C15)),
+        "C17" => Some(Box::new(c17::C17)),
+        "C18" => Some(Box::new(c18::C18)),
         _ => None,
     }
 }
